@@ -210,6 +210,11 @@ def _fmt(w):
     return f"{w[0]:04}{w[1]:02}{w[2]:02}T{w[3]:02}{w[4]:02}{w[5]:02}"
 
 
+def _plus_days(w, n):
+    t = datetime(*w) + timedelta(days=n)
+    return [t.year, t.month, t.day, t.hour, t.minute, t.second]
+
+
 def _plus_hour(w):
     d = datetime(*w) + timedelta(hours=1)
     return [d.year, d.month, d.day, d.hour, d.minute, d.second]
@@ -234,7 +239,9 @@ def calendar_text(cal, defs, style="plain"):
             if p["name"] == "FREEBUSY":
                 # duration form: an explicit end one wall-clock hour later can precede the start across a
                 # DST change of the referenced zone, which the library rightly rejects
-                lines.append(f"FREEBUSY{par}:" + ",".join(_fmt(w) + "/PT1H" for w in p["walls"]))
+                # ... every other entry with an explicit end 200 days on, across the onsets in between
+                lines.append(f"FREEBUSY{par}:" + ",".join(
+                    _fmt(w) + ("/" + _fmt(_plus_days(w, 200)) if k % 2 else "/PT1H") for k, w in enumerate(p["walls"])))
             elif p["name"] in ("RDATE", "EXDATE"):
                 lines.append(f"{p['name']}{par}:" + ",".join(_fmt(w) for w in p["walls"]))
             else:
@@ -375,14 +382,84 @@ def _values_of(comp, p):
     out = []
     for e in entries:
         if hasattr(e, "dts"):
-            out += [x.dt.tzinfo for x in e.dts]
+            out += [(x.dt.tzinfo, x.dt) for x in e.dts]
         elif hasattr(e, "start"):
-            out.append(e.start.tzinfo)
-            out.append(getattr(e.end, "tzinfo", None))
+            out.append((e.start.tzinfo, e.start))
+            out.append((getattr(e.end, "tzinfo", None), e.end))
         else:
             dt = getattr(e, "dt", None)
-            out.append(getattr(dt, "tzinfo", None))
+            out.append((getattr(dt, "tzinfo", None), dt))
     return out
+
+
+def _own_offset_check(res, stepno, where, D, value, provider="zoneinfo", tzid=None, E=None):
+    """The date-time itself (not only the zone object it carries) has the offset, name and dst of the observance in
+    force at its wall-clock time - checked where the RFC model knows only one answer (no gap, no overlap)."""
+    from datetime import datetime as _dt
+    if not isinstance(value, _dt) or value.tzinfo is None:
+        return
+    wall = value.replace(tzinfo=None)
+    ons = zonegen.utc_onsets(D)
+    cands = []
+    for off in sorted({ob["to"] for ob in D["obs"]} | {ob["from"] for ob in D["obs"]}):
+        r = zonegen.in_force(D, ons, wall - timedelta(minutes=off))
+        if r is not None and r[0] == off:
+            cands.append(r)
+    # also a neighbour within the largest offset step makes the reading provider-dependent: stay clear of onsets
+    span = timedelta(minutes=max(abs(ob["to"] - ob["from"]) for ob in D["obs"]) + 1)
+    near = any(abs((wall - timedelta(minutes=D["obs"][i]["from"])) - t) <= span or
+               abs((wall - timedelta(minutes=D["obs"][i]["to"])) - t) <= span for t, i in ons)
+    if len(cands) != 1 or near:
+        return
+    off, name, std = cands[0]
+    try:
+        got = (value.utcoffset(), value.tzname(), value.dst())
+    except Exception as e:
+        res.violate(f"C12/value/raised:{type(e).__name__}", stepno, f"{where}: {e!r}")
+        return
+    res.probe("value_offset_checked")
+    bad = got[0] != timedelta(minutes=off) or (name is not None and got[1] != name) or (std and got[2] not in (None, timedelta(0)))
+    if bad and tzid is not None and clean(tzid) in PROVIDER_ZONE:
+        # the listed deviation "an id the provider knows ignores the calendar's definition", at a wall-clock time
+        # where the sampled instants of the zone fingerprint could not tell the two zones apart
+        pz = provider_zone(provider, PROVIDER_ZONE[clean(tzid)])
+        try:
+            w = pz.localize(wall) if hasattr(pz, "localize") else wall.replace(tzinfo=pz)
+            if (w.utcoffset(), w.tzname(), w.dst()) == got:
+                res.violate(SIG_PROV, stepno, f"{where}: {wall.isoformat()} carries the provider's "
+                            f"{PROVIDER_ZONE[clean(tzid)]} ({got!r}), the definition says {off} min / {name!r}")
+                return
+        except Exception:
+            pass
+    if bad and E is not None:
+        # ... and "the first cached definition wins"
+        eons = zonegen.utc_onsets(E)
+        ecands = []
+        for eoff in sorted({ob["to"] for ob in E["obs"]} | {ob["from"] for ob in E["obs"]}):
+            r = zonegen.in_force(E, eons, wall - timedelta(minutes=eoff))
+            if r is not None and r[0] == eoff:
+                ecands.append(r)
+        if any(got[0] == timedelta(minutes=r[0]) and (r[1] is None or got[1] == r[1]) for r in ecands):
+            res.violate(SIG_FIRST, stepno, f"{where}: {wall.isoformat()} carries {got!r}: the definition cached earlier "
+                        f"in the process, not the calendar's own ({off} min / {name!r})")
+            return
+    if bad and provider == "zoneinfo":
+        du = dateutil_direct(D)
+        if du is not None:
+            w = wall.replace(tzinfo=du)
+            try:
+                if (w.utcoffset(), w.tzname(), w.dst()) == got:
+                    # the listed deviation of the zoneinfo path (dateutil's reading of the definition), seen at a
+                    # wall-clock time that the sampled instants of the zone fingerprint did not hit
+                    res.violate(SIG_DU, stepno, f"{where}: {wall.isoformat()} carries {got!r} as dateutil's own "
+                                f"reading of the definition does; the RFC model says {off} min / {name!r}")
+                    return
+            except Exception:
+                pass
+    if bad:
+        res.violate("C12/value/own-offset-differs-from-zone", stepno,
+                    f"{where}: {wall.isoformat()} carries {got!r}, the definition says {off} min / {name!r} / "
+                    f"{'STANDARD' if std else 'DAYLIGHT'}")
 
 
 def execute(run, res):
@@ -618,9 +695,14 @@ def _check_parsed(res, stepno, op, tree, cal, defs, cache, provider, data):
                 pts = [x for x in pts if first is not None and x >= first]
             ref = rfc_fingerprint(D, pts)
             verdicts = []
-            for tz in tzs:
-                verdicts.append(_classify(res, stepno, op, tz, tzid, D, pts, ref, defs, own_idx, eff_idx,
-                                          known_to_provider, provider, lookup_class, cp, p))
+            for tz, value in tzs:
+                v = _classify(res, stepno, op, tz, tzid, D, pts, ref, defs, own_idx, eff_idx,
+                              known_to_provider, provider, lookup_class, cp, p)
+                verdicts.append(v)
+                if v == "ok":
+                    _own_offset_check(res, stepno, f"{cp['kind']}.{p['name']};TZID={tzid} (provider {provider})", D, value,
+                                      provider, tzid,
+                                      defs[eff_idx]["def"] if eff_idx is not None and eff_idx != own_idx else None)
             log.append([p["name"], lookup_class, verdicts])
     for i in after:
         cache.define(defs[i]["def"]["tzid"], i)
